@@ -113,6 +113,21 @@ def scenario_schedules(seed, salt, reps=1):
                       [{"ev": "Timeout", "p": p} for p in hon]
                 out.append(pre + [{"ev": "ByzCraft", "kind": "pp", "b": 3, "r": 3, "v": v, "vals": [1, 2], "defect": defect,
                                    "seed": r.randrange(1 << 30), "to": hon}, tail(steps=80)])
+        # F. compare extension, honest only: member d REJECTS the round-1 leader's value in its own Compare (no PREPARE of its
+        #    own, compareFailureRound = 1) but then sees the PREPARE quorum of the others: it is prepared on that value, sends
+        #    COMMIT, and after its timeout its ROUND-CHANGE has to carry the prepared round, value and certificate (the others
+        #    may have decided on its COMMIT).  d is the leader of round 2 or of round 3, all rotations.
+        for inst in range(4):
+            ldr = (inst + 1) % 4
+            d = (ldr + 1 + (rep + inst) % 2) % 4
+            lv = 1 + (ldr % 2)
+            rest = [p for p in range(4) if p != d]
+            pre = [config_step(4, inst, [], [1000 * d + lv])] + [{"ev": "Start", "p": p} for p in range(4)] + \
+                  [{"ev": "Input", "p": p, "v": 1 + (p % 2)} for p in range(4)] + \
+                  [S("PP", ldr, 1, p) for p in range(4)] + [S("P", q, 1, d) for q in rest] + \
+                  [S("C", d, 1, ldr)] + [{"ev": "Timeout", "p": d}] + [S("RC", d, 2, p) for p in rest[:2]] + \
+                  [{"ev": "Timeout", "p": p} for p in rest[(rep % 2):]]
+            out.append(pre + [tail(byz=False, steps=120)])
         # D. honest only: a lagging member jumps to round 2 through a justified PRE-PREPARE that is then re-delivered
         hon = [0, 1, 2, 3]
         pre = [config_step(4, 0, [])] + [{"ev": "Start", "p": p} for p in hon] + \
